@@ -46,6 +46,9 @@ PadSane == \A b \in SmallB : \A d \in SeqsUpTo(Alpha(b), MaxLenFor(b) - 1) : d #
 \* block sizes <= 0 and the empty datum are errors
 PadErrCases == \A b \in {-1, 0} : Emit([fn |-> "paderr", s |-> <<>>, a |-> <<3, b>>, out |-> <<>>])
 
+\* lengths that are NOT a multiple of the block size, ending in something that looks like padding: always an error
+OddLenUnpadCases == \A b \in {2, 8, 15, 16, 17, 32} : \A n \in {1, 3, b - 1, b + 1, 2 * b - 1, 2 * b + 1} : \A q \in {1, 2, 3, 9, b} :
+    (n >= 1 /\ n % b # 0 /\ q <= 255) => Emit([fn |-> "oddunpad", s |-> <<>>, a |-> <<b, n, q>>, out |-> <<0, 0>>])
 \* structured 16-byte-block cases for un-padding inside CBC decryption: nb blocks whose last byte is p and whose
 \* final run is corrupted at offset c from the end (c = 0: not corrupted)
 CbcUnpadCases == \A nb \in 1..3 : \A p \in {0, 1, 2, 15, 16, 17, 32, 255} : \A c \in {0, 2, 15, 16} :
@@ -72,6 +75,7 @@ ASSUME PadSane
 ASSUME UnpadCases
 ASSUME PadCases
 ASSUME BigUnpadCases
+ASSUME OddLenUnpadCases
 ASSUME PadErrCases
 ASSUME CbcUnpadCases
 ASSUME CbcCases
